@@ -48,7 +48,8 @@ def harness_params(f):
 
 
 def _worker(job):
-    prop, hname, tier, budget, case_idx = job
+    prop, hname, tier, budget, case_idx = job[:5]
+    cases_fn = job[5] if len(job) > 5 else None
     t0 = time.time()
     try:
         I, reg = build(prop)
@@ -57,7 +58,8 @@ def _worker(job):
         label = hname
         if case_idx is not None:
             from pyvc import tables
-            case = getattr(tables, h["cases"])(REPO)[case_idx]
+            cases_fn = cases_fn or h["cases"]
+            case = getattr(tables, cases_fn)(REPO)[case_idx]
             label = "%s[%s]" % (hname, case.get("id", case_idx))
         summaries = {}
         for sname in h["uses"]:
@@ -72,8 +74,9 @@ def _worker(job):
         ex = driver.Explorer(I, prove_timeout_ms=pt, decide_timeout_ms=max(3000, min(pt // 3, 120000)))
         res = ex.run_harness(hname, h["func"], harness_params(h["func"]), summaries, loops, case)
         out = {
-            "bounded": h["bounded"], "harness": label, "base_harness": hname, "case": case_idx, "cases_fn": h["cases"], "case_desc": (case.get("example") if isinstance(case, dict) else None), "prop": prop, "target": h["target"], "proves": h["proves"], "note": h["note"],
+            "bounded": h["bounded"], "harness": label, "base_harness": hname, "case": case_idx, "cases_fn": cases_fn or h["cases"], "case_desc": (case.get("example") if isinstance(case, dict) else None), "prop": prop, "target": h["target"], "proves": h["proves"], "note": h["note"],
             "paths": res.paths, "completed_paths": res.completed_paths, "vcs": res.vcs,
+            "case_excluded": bool(getattr(I, "case_excluded", False)),
             "time": res.time, "solver_time": res.solver_time, "error": res.error, "covers": res.covers,
             "obligations": {k: {"status": v["status"], "vcs": v["vcs"], "time": v["time"], "solvers": sorted(v["solvers"])}
                             for k, v in res.obligations.items()},
@@ -163,9 +166,10 @@ def run_property(prop, spec, args):
             continue
         if h["cases"]:
             from pyvc import tables
-            n = len(getattr(tables, h["cases"])(REPO))
+            fn = h["cases_quick"] if (tier != "thorough" and h.get("cases_quick")) else h["cases"]
+            n = len(getattr(tables, fn)(REPO))
             for ci in range(n):
-                jobs.append((prop, hname, tier, budget, ci))
+                jobs.append((prop, hname, tier, budget, ci, fn))
         else:
             jobs.append((prop, hname, tier, budget, None))
     results = []
@@ -234,12 +238,12 @@ def report(prop, spec, args, seed, results, extra, t0):
         if r["error"]:
             kind, text = r["error"]
             (faults if kind == "crash" else undecided).append("%s: %s: %s" % (r["harness"], kind, text))
-        if not r["error"] and r["completed_paths"] == 0 and not r["failures"]:
+        if not r["error"] and r["completed_paths"] == 0 and not r["failures"] and not r.get("case_excluded"):
             faults.append("%s: vacuous harness (no path completes: contradictory requires?)" % r["harness"])
         for cname, ok in r["covers"].items():
             if not ok and not r["failures"]:
                 faults.append("%s: cover %s unreachable (vacuity guard)" % (r["harness"], cname))
-        if not r["error"] and not r["obligations"]:
+        if not r["error"] and not r["obligations"] and not r.get("case_excluded"):
             faults.append("%s: zero obligations generated" % r["harness"])
         for kid in r.get("known_reproduced", []):
             known_lines.append(kid)
